@@ -53,8 +53,9 @@ Expected(scn) ==
          LET r == RunStims(St0(scn.script), scn.stims, scn.max) IN
          [restarts |-> r.sends, closed |-> r.closed, final |-> IF r.closed THEN "Failed" ELSE "Ongoing", monitored |-> ~r.closed]
     [] scn.kind = "accept" ->
-         \* the accept arrives at instant scn.at (0 = never); the timeout is scn.timeout (0 = disabled)
-         LET late == scn.timeout > 0 /\ (scn.at = 0 \/ scn.at > scn.timeout) IN
+         \* the accept arrives at instant scn.at (0 = never, 99 = at once: before the call that opened the channel has returned - the
+         \* responder answers faster than SendMessage / OpenChannel come back); the timeout is scn.timeout (0 = disabled)
+         LET late == scn.timeout > 0 /\ scn.at # 99 /\ (scn.at = 0 \/ scn.at > scn.timeout) IN
          [restarts |-> << >>, closed |-> late, final |-> IF late THEN "Failed" ELSE IF scn.at = 0 THEN "Requested" ELSE "Queued", monitored |-> ~late]
     [] scn.kind = "complete" ->
          LET late == scn.timeout > 0 /\ (scn.at = 0 \/ scn.at > scn.timeout) IN
@@ -63,6 +64,7 @@ Expected(scn) ==
 Scenarios ==
   {[kind |-> "restart", dir |-> d, max |-> m, stims |-> s, script |-> sc, timeout |-> 0, at |-> 0] : d \in Dirs, m \in Maxes, s \in StimSeqs, sc \in Scripts}
   \cup {[kind |-> k, dir |-> d, max |-> 2, stims |-> << >>, script |-> << >>, timeout |-> t, at |-> a] : k \in {"accept", "complete"}, d \in Dirs, t \in {0, 5}, a \in {0, 3, 8}}
+  \cup {[kind |-> "accept", dir |-> d, max |-> 2, stims |-> << >>, script |-> << >>, timeout |-> t, at |-> 99] : d \in Dirs, t \in {0, 5}}
 
 GenRows == {[scn |-> s, exp |-> Expected(s)] : s \in Scenarios}
 
